@@ -1211,6 +1211,11 @@ def _math(I, name):
             rows = I.loadtxt_data
             return Vec(Vec(to_expr(c) for c in r) for r in rows)
         return loadtxt
+    if name in ("isclose", "allclose"):
+        def isclose(a, b, rtol=1e-05, atol=1e-08, **k):
+            r = sp.Le(sp.Abs(to_expr(a) - to_expr(b)), to_expr(atol) + to_expr(rtol) * sp.Abs(to_expr(b)))
+            return _pb(r)
+        return isclose
     if name == "isnan":
         return _map1(I, lambda x: sp.true if x is sp.nan else sp.false)
     if name == "diff":
